@@ -165,9 +165,25 @@ func format(f mdiff.FormatFunc, cs []*mdiff.Chunk, fi *mdiff.FileInfo) string {
 	return b.String()
 }
 
+// beyondModel: a line number whose magnitude exceeds 2^61.  The readers' int arithmetic is
+// modelled up to the ends of int (atoi64, wrap64); the formatters' is not (their position
+// arithmetic comes from Gen as expressions over Z), so such patches are not formatted again.
+func beyondModel(p *mdiff.Patch) bool {
+	big := func(n int) bool { return n > 1<<61 || n < -(1<<61) }
+	for _, c := range p.Chunks {
+		if big(c.LStart) || big(c.LEnd) || big(c.RStart) || big(c.REnd) {
+			return true
+		}
+	}
+	return false
+}
+
 func reformat(p *mdiff.Patch, err error, f mdiff.FormatFunc) string {
 	if err != nil {
 		return "x"
+	}
+	if beyondModel(p) {
+		return "big"
 	}
 	var b bytes.Buffer
 	p.Format(&b, f)
@@ -390,7 +406,7 @@ func mutate(r *tr.Rand, text string) string {
 		return text
 	}
 	i := r.Intn(len(lines))
-	switch r.Intn(9) {
+	switch r.Intn(10) {
 	case 0: // drop a line
 		lines = slices.Delete(lines, i, i+1)
 	case 1: // duplicate a line
@@ -415,6 +431,10 @@ func mutate(r *tr.Rand, text string) string {
 	case 7: // swap two lines
 		j := r.Intn(len(lines))
 		lines[i], lines[j] = lines[j], lines[i]
+	case 9: // blow a digit up into a number near or beyond the ends of int
+		if k := strings.IndexAny(lines[i], "0123456789"); k >= 0 {
+			lines[i] = lines[i][:k] + tr.Pick(r, []string{"9223372036854775807", "9223372036854775808", "9223372036854775806", "18446744073709551615", "4611686018427387904", "123456789012345678901234567890"}) + lines[i][k+1:]
+		}
 	case 8: // insert a byte
 		b := []byte(lines[i])
 		k := r.Intn(len(b) + 1)
@@ -453,6 +473,12 @@ var handTexts = []string{
 	"diff --git a/x b/x\n", "diff a\n--- a\n", "diff a\n--- a\nfoo\n", "nothing\n", "diff a\n--- a\n+++ b\n", "diff a\n--- a\n+++ b\n@@ -1 +1 @@\n-a\n\n",
 	"diff a\n--- a\n+++ b\n@@ -1 +1 @@\n-a\n\\ No newline at end of file\n+b\ndiff b\n--- c\n+++ d\n@@ -3,2 +3 @@\n-a\n b\n",
 	"diff a\n--- a\n+++ b\nBinary files differ\n", "--- a\n+++ b\ndiff a\n--- c\n+++ d\n@@ -1 +1 @@\n+x\n",
+	// numbers at and beyond the ends of int: strconv.Atoi's range error, wrap-around in the readers' sums
+	"@@ -9223372036854775807,5 +1 @@\n", "@@ -9223372036854775808 +1 @@\n", "@@ -1,18446744073709551616 +1 @@\n", "@@ --9223372036854775808,-1 +1,2 @@\n+a\n+b\n",
+	"@@ -1 +9223372036854775807,9223372036854775807 @@\n-x\n", "@@ -00000000000000000000000000000000000000001,2 +1 @@\n-a\n-b\n+c\n",
+	"9223372036854775807a1\n> x\n", "1a9223372036854775807\n> x\n", "1a9223372036854775806,9223372036854775807\n> x\n> y\n", "-9223372036854775808d1\n< x\n", "99999999999999999999a1\n> x\n",
+	"1,9223372036854775807d0\n< x\n", "1d9223372036854775807\n< x\n", "-9223372036854775808,-9223372036854775808c1\n< x\n---\n> y\n", "1c-9223372036854775808\n< x\n---\n> y\n",
+	"diff x\n--- a\n+++ b\n@@ -9223372036854775807,1 +9223372036854775807,1 @@\n-x\n+y\n",
 }
 
 func text(ls []string) string {
